@@ -7,6 +7,7 @@ import (
 	"slices"
 	"time"
 
+	"github.com/nspcc-dev/neofs-node/internal/verifhook"
 	"github.com/nspcc-dev/neofs-node/pkg/local_object_storage/blobstor/common"
 	storagelog "github.com/nspcc-dev/neofs-node/pkg/local_object_storage/internal/log"
 	apistatus "github.com/nspcc-dev/neofs-sdk-go/client/status"
@@ -86,6 +87,7 @@ func (c *cache) flushScheduler() {
 			flushB = addrs[addr] > c.maxFlushBatchThreshold && len(b) != 0
 			for !handledAddr || flushB {
 				if flushB {
+					verifhook.Point("writecache.sched.handoff")
 					select {
 					case <-c.flushErrCh:
 						select {
@@ -97,6 +99,7 @@ func (c *cache) flushScheduler() {
 						}
 						break addrLoop
 					case c.flushCh <- b:
+						verifhook.Point("writecache.sched.handed")
 					case <-c.closeCh:
 						return
 					}
@@ -132,6 +135,7 @@ func (c *cache) flushWorker(id int) {
 		if !ok {
 			return
 		}
+		verifhook.Point("writecache.worker.got")
 
 		c.modeMtx.RLock()
 		if !c.readOnly() {
@@ -147,6 +151,7 @@ func (c *cache) flushWorker(id int) {
 		for _, addr := range addrs {
 			c.flushObjs.Delete(addr)
 		}
+		verifhook.Point("writecache.worker.done")
 		if err != nil {
 			select {
 			case c.flushErrCh <- struct{}{}:
@@ -184,6 +189,7 @@ func (c *cache) flushSingle(addr oid.Address, ignoreErrors bool) error {
 		return err
 	}
 
+	verifhook.Point("writecache.flushSingle.read")
 	err = c.storage.Put(addr, data)
 	if err != nil {
 		if !errors.Is(err, common.ErrNoSpace) && !errors.Is(err, common.ErrReadOnly) {
@@ -193,10 +199,12 @@ func (c *cache) flushSingle(addr oid.Address, ignoreErrors bool) error {
 		return err
 	}
 
+	verifhook.Point("writecache.flushSingle.stored")
 	err = c.delete(addr)
 	if err != nil && !errors.As(err, new(apistatus.ObjectNotFound)) {
 		c.log.Error("can't remove object from write-cache", zap.Error(err))
 	}
+	verifhook.Point("writecache.flushSingle.deleted")
 
 	return nil
 }
@@ -217,6 +225,7 @@ func (c *cache) flushBatch(addrs []oid.Address) error {
 		objs[addr] = data
 	}
 
+	verifhook.Point("writecache.flushBatch.read")
 	err := c.storage.PutBatch(objs)
 	if err != nil {
 		if !errors.Is(err, common.ErrNoSpace) && !errors.Is(err, common.ErrReadOnly) {
@@ -228,6 +237,7 @@ func (c *cache) flushBatch(addrs []oid.Address) error {
 		return err
 	}
 
+	verifhook.Point("writecache.flushBatch.stored")
 	for addr := range objs {
 		storagelog.Write(c.log,
 			storagelog.AddressField(addr),
@@ -238,6 +248,7 @@ func (c *cache) flushBatch(addrs []oid.Address) error {
 		if err != nil && !errors.As(err, new(apistatus.ObjectNotFound)) {
 			c.log.Error("can't remove object from write-cache", zap.Error(err))
 		}
+		verifhook.Point("writecache.flushBatch.deleted")
 	}
 	return nil
 }
